@@ -477,6 +477,21 @@ func (a *AMF) unprotect(u *ue, nas []byte, msg string, allowed ...int) (*Envelop
 	return e, nil
 }
 
+// laterNAS: the network implements a later release of TS 24.501 and appends optional information elements this
+// release does not list to a 5GMM message (UEChoice.LaterIEs of them): TLV elements with identifiers 3C/3D/3E, 0..4
+// octets of value, behind every element of the table. A UE ignores IEs it does not comprehend (TS 24.501 7.7.1).
+func laterNAS(ch UEChoice, msg []byte, salt int) []byte {
+	out := append([]byte{}, msg...)
+	for i := 0; i < ch.LaterIEs; i++ {
+		n := (salt + 2*i) % 5
+		out = append(out, byte(0x3c+(salt+i)%3), byte(n))
+		for k := 0; k < n; k++ {
+			out = append(out, byte(0x10*salt+k))
+		}
+	}
+	return out
+}
+
 // crypt applies the selected ciphering algorithm (an involution) to a NAS message.
 func (u *ue) crypt(count uint32, dir uint32, in []byte) []byte {
 	switch u.encAlg {
@@ -692,7 +707,7 @@ func (a *AMF) onRegistrationRequest(ran uint64, plain []byte, what string) ([]dl
 	a.byAMF[u.amfID] = u
 	a.Obs.SUPIs = append(a.Obs.SUPIs, supi)
 	a.Obs.RANIDs = append(a.Obs.RANIDs, ran)
-	nas := BuildAuthenticationRequest(ch.NgKSI, []byte{0, 0}, u.rand, u.autn)
+	nas := laterNAS(ch, BuildAuthenticationRequest(ch.NgKSI, []byte{0, 0}, u.rand, u.autn), 1)
 	b, err := a.buildDownlinkNASTransport(u, nas, ch.Options&(OptDLOldAMF|OptDLRANPagingPrio))
 	if err != nil {
 		return nil, what, a.viol("harness", "cannot encode DownlinkNASTransport: %v", err)
@@ -744,7 +759,7 @@ func (a *AMF) onServiceRequest(u *ue, nas []byte, what string) ([]dlMsg, string,
 			status[u.psi/8] |= 1 << uint(u.psi%8)
 		}
 	}
-	acc := u.protect(2, BuildServiceAccept(status))
+	acc := u.protect(2, laterNAS(u.ch, BuildServiceAccept(status), 5))
 	var sessions = a.svcSessions(u)
 	b, err := a.buildInitialContextSetupRequest(u, acc, 0, sessions)
 	if err != nil {
@@ -811,7 +826,7 @@ func (a *AMF) onUplinkNAS(p *iewalk.PDU) ([]dlMsg, string, *Violation) {
 		}
 		a.Obs.ResStarOK++
 		u.state = stSMC
-		smc := BuildSecurityModeCommand(u.encAlg, u.intAlg, u.ch.NgKSI, u.secCap, u.ch.Has(OptSMCIMEISVReq), u.ch.Has(OptSMCRINMR))
+		smc := laterNAS(u.ch, BuildSecurityModeCommand(u.encAlg, u.intAlg, u.ch.NgKSI, u.secCap, u.ch.Has(OptSMCIMEISVReq), u.ch.Has(OptSMCRINMR)), 2)
 		b, err := a.buildDownlinkNASTransport(u, u.protect(3, smc), u.ch.Options&(OptDLMobilityRestr|OptDLIndexToRFSP|OptDLUEAMBR))
 		if err != nil {
 			return nil, what, a.viol("harness", "cannot encode DownlinkNASTransport: %v", err)
@@ -859,7 +874,7 @@ func (a *AMF) onUplinkNAS(p *iewalk.PDU) ([]dlMsg, string, *Violation) {
 		if u.ch.Has(OptRegAcceptT3512) {
 			t3512 = 0x5e
 		}
-		ra := BuildRegistrationAccept(u.guti, tai, allowed, u.ch.Has(OptRegAcceptNwFeat), t3512)
+		ra := laterNAS(u.ch, BuildRegistrationAccept(u.guti, tai, allowed, u.ch.Has(OptRegAcceptNwFeat), t3512), 3)
 		b, err := a.buildInitialContextSetupRequest(u, u.protect(2, ra), u.ch.Options, nil)
 		if err != nil {
 			return nil, what, a.viol("harness", "cannot encode InitialContextSetupRequest: %v", err)
@@ -896,7 +911,7 @@ func (a *AMF) onUplinkNAS(p *iewalk.PDU) ([]dlMsg, string, *Violation) {
 		if u.ch.Has(OptCUCName) {
 			name = []byte{0x80, 'r', 'e', 'f'}
 		}
-		cuc := BuildConfigurationUpdateCommand(guti != nil, guti, name)
+		cuc := laterNAS(u.ch, BuildConfigurationUpdateCommand(guti != nil, guti, name), 4)
 		b, err := a.buildDownlinkNASTransport(u, u.protect(2, cuc), u.ch.Options&OptDLAllowedNSSAI)
 		if err != nil {
 			return nil, what, a.viol("harness", "cannot encode DownlinkNASTransport: %v", err)
